@@ -5,6 +5,7 @@
 package simnet
 
 import (
+	"os"
 	"context"
 	"errors"
 	"fmt"
@@ -61,7 +62,7 @@ type Net struct {
 var N = New()
 
 func New() *Net {
-	return &Net{targets: map[string]Target{}, dead: map[string]bool{}, cut: map[string]bool{}, RPCsByCmd: map[string]int{}}
+	return &Net{targets: map[string]Target{}, dead: map[string]bool{}, cut: map[string]bool{}, RPCsByCmd: map[string]int{}, Trace: os.Getenv("DBG_NETTRACE") != ""}
 }
 
 func Reset() { N = New() }
